@@ -53,6 +53,9 @@ func numDomain() []*big.Rat {
 	// 2^24 vs 2^24+1 (the latter is not a float32)
 	d = append(d, new(big.Rat).SetFloat64(0.1), new(big.Rat).SetFloat64(float64(float32(0.1))),
 		new(big.Rat).SetInt64(16777216), new(big.Rat).SetInt64(16777217))
+	// neighbouring doubles (one unit in the last place apart): no tolerance may make them equal
+	d = append(d, new(big.Rat).SetFloat64(math.Nextafter(1, 2)), new(big.Rat).SetFloat64(0.3), new(big.Rat).SetFloat64(0.1+0.2),
+		new(big.Rat).SetFloat64(math.Nextafter(-1, -2)), new(big.Rat).SetFloat64(math.Nextafter(1e15, 2e15)), new(big.Rat).SetFloat64(1e15))
 	return d
 }
 
@@ -298,7 +301,8 @@ func runC19Direct(c *Ctx) (pairs, crossKind int, bad []string, samples []interfa
 		}
 	}
 	// strings
-	strs := []string{"", "a", "ab", "b", "A", "é", "z", "a\x00", "aa", "Z", " a", "ab\xff"}
+	strs := []string{"", "a", "ab", "b", "A", "é", "z", "a\x00", "aa", "Z", " a", "ab\xff",
+		"10", "9", "07", "7", "1e1", "-1", "7.0", "0x10", "true", "false"} // texts that look like numbers are still texts
 	var sops []cmpOperand
 	for _, s := range strs {
 		for _, w := range wraps {
@@ -400,7 +404,8 @@ func runC19Other(c *Ctx, idx int, cr *CaseResult) *CaseResult {
 	left, right := "F.S1", "G.S1"
 	desc := ""
 	if r.Intn(2) == 0 {
-		strs := []string{"", "a", "ab", "b", "A", "é", "z", "a\x00", "aa", "Z", " a", "ab\xff"}
+		strs := []string{"", "a", "ab", "b", "A", "é", "z", "a\x00", "aa", "Z", " a", "ab\xff",
+		"10", "9", "07", "7", "1e1", "-1", "7.0", "0x10", "true", "false"} // texts that look like numbers are still texts
 		f.S1, g.S1 = strs[r.Intn(len(strs))], strs[r.Intn(len(strs))]
 		cv = strings.Compare(f.S1, g.S1)
 		desc = fmt.Sprintf("string %q vs %q", f.S1, g.S1)
